@@ -511,6 +511,11 @@ func txFault(r *rng, add func(violation)) {
 		// (a transaction that can no longer be finished keeps its connection: a failed call has exhausted
 		// part of the pool)
 		viol("C13", "connection-of-the-transaction-cannot-be-released", fmt.Sprintf("after a statement failed with %q: %d finish events at the driver, the first finisher returned %v", fault, finishes, ferr))
+		if fault == context.Canceled {
+			// the context of ONE call ended: that call fails with its error; nothing else happens to the
+			// transaction (it was begun under another context)
+			viol("C20", "a-cancelled-call-ended-the-transaction", fmt.Sprintf("%d finish events at the driver afterwards, the first finisher returned %v", finishes, ferr))
+		}
 	}
 	before := len(w.f.log())
 	e1, e2 := w.tx.Commit(), w.tx.Rollback()
